@@ -166,7 +166,66 @@ pub struct LayoutSpace {
     pub tier: String,
     pub with_aux: bool,
     blocks: Vec<Block>,
+    /// hand-shaped families appended after the blocks (types with 10..16 fields)
+    long: Vec<TypeS>,
     pub env: Env,
+}
+
+/// Types with 10, 11 and 16 fields `f0..`: one scalar type (or two alternating) laid out contiguously or
+/// on a stride from a start offset, with and without a vftable, each also with one address moved by
+/// one byte up or down at the second, tenth and last field. Realisability is left to the model.
+pub fn long_types() -> Vec<TypeS> {
+    let mut out = vec![];
+    let kinds: [(&[&str], [Option<i128>; 4]); 4] = [
+        (&["u8"], [None, Some(2), Some(16), Some(0x100)]),
+        (&["u32"], [None, Some(8), Some(16), Some(0x100)]),
+        (&["*const u8"], [None, Some(8), Some(16), Some(0x100)]),
+        (&["u8", "u32"], [None, Some(8), Some(16), Some(0x100)]),
+    ];
+    for n in [10usize, 11, 16] {
+        for (tys, strides) in kinds {
+            for stride in strides {
+                for start in [0i128, 16] {
+                    if stride.is_none() && start != 0 {
+                        continue;
+                    }
+                    for vft in [false, true] {
+                        let mk = |moved: Option<(usize, i128)>| {
+                            let mut t = TypeS::new("T");
+                            for i in 0..n {
+                                let ty = match tys[i % tys.len()] {
+                                    "*const u8" => MTy::b("u8").cptr(),
+                                    b => MTy::B(if b == "u8" { "u8" } else { "u32" }),
+                                };
+                                let mut f = FieldS::new(&format!("f{i}"), ty);
+                                f.addr = stride.map(|s| start + i as i128 * s);
+                                if let Some((j, d)) = moved {
+                                    if j == i {
+                                        // contiguous fields have no address: the moved one gets a small absolute one
+                                        f.addr = Some(f.addr.unwrap_or(i as i128 * 4) + d);
+                                    }
+                                }
+                                t.fields.push(f);
+                            }
+                            if vft {
+                                let mut f = FuncS::new("v");
+                                f.recv = Recv::Const;
+                                t.vft = Some(VftS { size: None, funcs: vec![f] });
+                            }
+                            t
+                        };
+                        out.push(mk(None));
+                        for j in [1, 9, n - 1] {
+                            for d in [-1i128, 1] {
+                                out.push(mk(Some((j, d))));
+                            }
+                        }
+                    }
+                }
+            }
+        }
+    }
+    out
 }
 
 #[derive(Clone, Debug)]
@@ -242,19 +301,31 @@ impl LayoutSpace {
         blocks.push(Block { k: 3, fields: zero, addrs: vec![None, Some(8)], size_sel: vec![0], aligns: vec![None, Some(4)] });
         // addresses with three to five hex digits (generated padding of hundreds / thousands of bytes)
         blocks.push(Block { k: 2, fields: sub.clone(), addrs: vec![None, Some(0x100), Some(0xFF8), Some(0x10000)], size_sel: vec![0, 1, 4], aligns: vec![None, Some(8)] });
-        LayoutSpace { tier: tier.to_string(), with_aux, blocks, env: if with_aux { aux_env() } else { Env::default() } }
+        LayoutSpace { tier: tier.to_string(), with_aux, blocks, long: long_types(), env: if with_aux { aux_env() } else { Env::default() } }
+    }
+    /// The space without the long-type family (for checks whose cost grows with the number of fields).
+    pub fn without_long(mut self) -> LayoutSpace {
+        self.long.clear();
+        self
     }
     pub fn len(&self) -> usize {
-        self.blocks.iter().map(|b| b.len()).sum()
+        self.blocks.iter().map(|b| b.len()).sum::<usize>() + self.long.len()
     }
     pub fn describe(&self) -> String {
         self.blocks
             .iter()
             .map(|b| format!("k={}: ({} field forms x {} addresses)^{} x {} sizes x {} aligns x packed x vftable = {}", b.k, b.fields.len(), b.addrs.len(), b.k, b.size_sel.len(), b.aligns.len(), b.len()))
+            .chain(std::iter::once(format!("types with 10 / 11 / 16 fields on strides, with one-byte moves = {}", self.long.len())))
             .collect::<Vec<_>>()
             .join("; ")
     }
     pub fn get(&self, index: usize, ps: u64) -> LayoutCase {
+        let n_blocks: usize = self.blocks.iter().map(|b| b.len()).sum();
+        if index >= n_blocks {
+            let ty = self.long[index - n_blocks].clone();
+            let k = ty.fields.len();
+            return LayoutCase { index, ty, k };
+        }
         let mut rest = index;
         let mut block = &self.blocks[0];
         for b in &self.blocks {
